@@ -174,15 +174,25 @@ func (st *c08State) modelRender(op c08Op, ill bool) (modelOut, error) {
 
 // editStruct is the k-th in-place edit the caller makes to its own struct value between renders.
 func editStruct(p *poolData, k int) {
-	if len(p.Xs) > 0 {
-		p.Xs[k%len(p.Xs)] = int64(100 + k)
-	}
-	if len(p.Ss) > 0 {
-		p.Ss[0] = "edited" + strconv.Itoa(k)
-	}
-	p.M.B = "m-edited" + strconv.Itoa(k)
-	if len(p.Ms) > 0 {
-		p.Ms[0].A = int64(k)
+	// one kind of edit at a time: an element of a slice (the slice header, and so a shallow copy of
+	// the struct, stays the same), an element of a slice of structs, a field
+	switch k % 4 {
+	case 0:
+		if len(p.Xs) > 0 {
+			p.Xs[k%len(p.Xs)] = int64(100 + k)
+		}
+	case 1:
+		if len(p.Ss) > 0 {
+			p.Ss[0] = "edited" + strconv.Itoa(k)
+		}
+	case 2:
+		if len(p.Ms) > 0 {
+			p.Ms[0].A = int64(k)
+			p.Ms[0].B = "ms-edited" + strconv.Itoa(k)
+		}
+	default:
+		p.M.B = "m-edited" + strconv.Itoa(k)
+		p.A = int64(k)
 	}
 }
 
